@@ -350,6 +350,12 @@ def format_version(vinfo: version.V1VersionInfo, raw_pattern: str) -> str:
     'v1.02.034'
     """
     full_pattern = raw_pattern
+    # regex anchors belong to the search pattern, not to the rendered text
+    if full_pattern.startswith("^"):
+        full_pattern = full_pattern[1:]
+    if full_pattern.endswith("$") and not full_pattern.endswith("\\$"):
+        full_pattern = full_pattern[:-1]
+
     for part_name, full_part_format in v1patterns.FULL_PART_FORMATS.items():
         full_pattern = full_pattern.replace("{" + part_name + "}", full_part_format)
 
